@@ -376,6 +376,11 @@ func (s *Server) parseSearchScanBaseTokens(
 					err = errInvalidArgument(nvalsStr)
 					return
 				}
+				if nvals > uint64(len(vs)) {
+					// fewer arguments follow than the number of values announced
+					err = errInvalidNumberOfArguments
+					return
+				}
 				valArr := make([]field.Value, nvals)
 				for i = 0; i < nvals; i++ {
 					if vs, valStr, ok = tokenval(vs); !ok {
